@@ -1,6 +1,9 @@
 package vsched
 
-import "fmt"
+import (
+	"fmt"
+	"reflect"
+)
 
 // Channels of the code under test stay real Go channels, but only as
 // identities (and for cap()): no value ever travels through them. The shim
@@ -300,4 +303,31 @@ func ChanInfo[T any](c chan T) (closed bool, queued int) {
 		return false, 0
 	}
 	return cs.closed, len(cs.buf)
+}
+
+// Len replaces the built-in len in rewritten code: for a channel it reports
+// the shim's queue length, for everything else the built-in's answer.
+func Len(x any) int {
+	v := reflect.ValueOf(x)
+	if !v.IsValid() {
+		return 0
+	}
+	if v.Kind() == reflect.Chan {
+		if s := cur; s != nil && !v.IsNil() {
+			if cs := s.chans[x]; cs != nil {
+				return len(cs.buf)
+			}
+			return 0
+		}
+	}
+	return v.Len()
+}
+
+// Cap replaces the built-in cap (the real channel keeps its capacity).
+func Cap(x any) int {
+	v := reflect.ValueOf(x)
+	if !v.IsValid() {
+		return 0
+	}
+	return v.Cap()
 }
